@@ -208,6 +208,17 @@ def _validate_expected_output_manifest(expected, actual):
     sys.exit(1)
 
 
+def _read_spec(path):
+    """Reads a spec file; exits with a one-line error if it is not UTF-8."""
+    try:
+        with open(path, encoding='utf-8') as f:
+            return f.read()
+    except UnicodeDecodeError as e:
+        print('%s:None: error: specification is not valid UTF-8 (%s).' % (path, e),
+              file=sys.stderr)
+        sys.exit(1)
+
+
 def main():
     """The entry point for the program."""
     if '--' in sys.argv:
@@ -253,8 +264,8 @@ def main():
                     read_from_stdin = True
                 elif os.path.isdir(spec_path) and args.recursive:
                     for recursive_spec_path in _recursive_stone_specs(spec_path):
-                        with open(recursive_spec_path, encoding='utf-8') as f:
-                            specs.append((recursive_spec_path, f.read()))
+                        specs.append((recursive_spec_path,
+                                      _read_spec(recursive_spec_path)))
                 elif not spec_path.endswith('.stone'):
                     print("error: Specification '%s' must have a .stone extension."
                           % spec_path,
@@ -265,8 +276,7 @@ def main():
                           file=sys.stderr)
                     sys.exit(1)
                 else:
-                    with open(spec_path, encoding='utf-8') as f:
-                        specs.append((spec_path, f.read()))
+                    specs.append((spec_path, _read_spec(spec_path)))
             if read_from_stdin and specs:
                 print("error: Do not specify stdin and specification files "
                       "simultaneously.", file=sys.stderr)
@@ -278,7 +288,12 @@ def main():
                 print('Reading specification from stdin.')
 
             stdin_buffer = sys.stdin.buffer  # pylint: disable=no-member,useless-suppression
-            stdin_text = io.TextIOWrapper(stdin_buffer, encoding='utf-8').read()
+            try:
+                stdin_text = io.TextIOWrapper(stdin_buffer, encoding='utf-8').read()
+            except UnicodeDecodeError as e:
+                print('stdin:None: error: specification is not valid UTF-8 (%s).' % e,
+                      file=sys.stderr)
+                sys.exit(1)
 
             # A new spec starts at each namespace declaration, i.e. at the
             # keyword at the start of a line (not wherever the word occurs).
